@@ -171,6 +171,7 @@ func registry() []PropSpec {
 			Quick: []HarnessSpec{
 				{Pkg: pkgCC, Func: "H06a_q", Unwind: 8, TimeoutMs: 400000, Solvers: []string{"z3-new"}, JobSecs: 900, Note: "features: each of the 5 axis lists of symbolic length <=2 with arbitrary (repeated, unordered) valid enum elements, 7 tri-state flags; arbitrary probe case (all 10 fields symbolic, including out-of-range values)"},
 				{Pkg: pkgCC, Func: "H06r2_q", Unwind: 8, TimeoutMs: 600000, Solvers: []string{"z3-new"}, JobSecs: 1200, Note: "two include/exclude entries (every field independently set or omitted) resolved in sequence against symbolic features (axis lists of length <=1, 7 tri-state flags); arbitrary probe case"},
+				{Pkg: pkgCC, Func: "H06p_q", Unwind: 8, UnwindFor: map[string]int{"parseConfig": 60, "h06p": 60}, NoDedupe: true, TimeoutMs: 400000, FeasSecs: 3, Solvers: []string{"z3-new"}, JobSecs: 1500, Split: []SplitDim{{"ninc", 0, 1}, {"nexc", 0, 1}, {"tls", 0, 2}}, CaseNote: "case split: number of include / exclude entries (0..1 each) and the supports_tls tri-state; everything else symbolic", Note: "parseConfig set algebra: features with exactly one (arbitrary) entry per axis list and 7 tri-state flags (supports_tls_client_certs unset or false), <=1 include and <=1 exclude entry (every field independently set or omitted), arbitrary probe case: result == (features + include) - exclude, contradictory or empty configurations rejected"},
 			},
 			Thorough: []HarnessSpec{
 				{Pkg: pkgCC, Func: "H06a_t", Unwind: 8, Note: "as quick with axis lists of length <=3", JobSecs: 3000, ExecSecs: 1200, TimeoutMs: 1500000},
